@@ -247,6 +247,7 @@ type TxGen struct {
 	Name   string
 	Signer bandtesting.Account
 	Gas    uint64
+	Fee    sdk.Coins // nil: 0uband
 	Msgs   func(info map[string]any) []sdk.Msg
 }
 
@@ -307,7 +308,11 @@ func signTx(app *band.BandApp, g *TxGen, info map[string]any, seqBump map[string
 	if gas == 0 {
 		gas = 5_000_000
 	}
-	tx, err := bandtesting.GenSignedMockTx(rand.New(rand.NewSource(1)), app.GetTxConfig(), g.Msgs(info), sdk.Coins{sdk.NewInt64Coin("uband", 0)}, gas, engine.ChainID, []uint64{num}, []uint64{seq}, g.Signer.PrivKey)
+	fee := sdk.Coins{sdk.NewInt64Coin("uband", 0)}
+	if g.Fee != nil {
+		fee = g.Fee
+	}
+	tx, err := bandtesting.GenSignedMockTx(rand.New(rand.NewSource(1)), app.GetTxConfig(), g.Msgs(info), fee, gas, engine.ChainID, []uint64{num}, []uint64{seq}, g.Signer.PrivKey)
 	if err != nil {
 		return nil, err
 	}
